@@ -12,8 +12,10 @@ from .core import MachineryError
 PROGS = ["pool", "strand", "timed", "coro"]
 
 
-def run_repro(exe, seed, freq, width, progs, extra=(), timeout=300):
-    cmd = [exe, "repro", "--seed", str(seed), "--freq", str(freq), "--width", str(width), "--progs", ",".join(progs)] + list(extra)
+def run_repro(exe, seed, fw, width_unused, progs, extra=(), timeout=300):
+    freq, width, sleep = fw
+    cmd = [exe, "repro", "--seed", str(seed), "--freq", str(freq), "--width", str(width), "--sleep", str(sleep),
+           "--progs", ",".join(progs)] + list(extra)
     rc, out, err = core.sh(cmd, timeout=timeout)
     if rc != 0:
         return None, "exit %s: %s" % (rc, err[-500:])
@@ -101,19 +103,21 @@ def check(rep, tier, seed0):
     if r.violated or r.error:
         raise MachineryError("FiberSched.tla sanity failed:\n" + r.out[-2000:])
     if tier == "quick":
-        grid = [(seed0 * 100 + s, f, w) for s in range(1, 5) for f, w in ((2, 1), (3, 2), (5, 10))]
+        cfgs = ((2, 1, 200), (3, 2, 200), (5, 10, 200), (1, 2, 200), (3, 3, 1))
+        grid = [(seed0 * 100 + s, c, c[1]) for s in range(1, 5) for c in cfgs]
     else:
-        grid = [(seed0 * 100 + s, f, w) for s in range(1, 33) for f, w in ((2, 1), (3, 2), (4, 3), (5, 10), (16, 10))]
+        cfgs = ((2, 1, 200), (3, 2, 200), (4, 3, 200), (5, 10, 200), (16, 10, 200), (1, 1, 200), (1, 10, 1), (3, 3, 1), (2, 10, 7))
+        grid = [(seed0 * 100 + s, c, c[1]) for s in range(1, 33) for c in cfgs]
     nd_all = []
     pairs = 0
     for seed, freq, width in grid:
         a, e1 = run_repro(exe, seed, freq, width, PROGS)
         b, e2 = run_repro(exe, seed, freq, width, PROGS)
         if a is None or b is None:
-            rep.violation("crash/repro", "the client programs did not run to completion under seed %d freq %d width %d: %s" % (
-                seed, freq, width, e1 or e2), {"seed": seed, "freq": freq, "width": width})
+            rep.violation("crash/repro", "the client programs did not run to completion under seed %d (freq, width, sleep) %s: %s" % (
+                seed, freq, e1 or e2), {"seed": seed, "freq": freq, "width": width})
             continue
-        cfg = "seed=%d freq=%d width=%d" % (seed, freq, width)
+        cfg = "seed=%d freq=%d width=%d sleep=%d" % (seed, freq[0], freq[1], freq[2])
         d = first_diff(a, b)
         pairs += 1
         if d:
